@@ -99,7 +99,17 @@ func replay(id, path string, raw bool) int {
 		return 0
 	}
 	if msg != "" {
-		if k := vf.KnownFor(id, sig); k != nil {
+		k := vf.KnownFor(id, sig)
+		if k == nil {
+			// a replay file registered for a known finding reports that finding
+			for _, e := range vf.LoadKnown() {
+				if e.Property == id && e.Status == "known" && e.Replay != "" && strings.HasSuffix(filepath.Clean(path), filepath.Clean(e.Replay)) {
+					e := e
+					k = &e
+				}
+			}
+		}
+		if k != nil {
 			fmt.Printf("KNOWN-FINDING: property=%s %s\n", id, k.What)
 			fmt.Printf("detail: %s\n", msg)
 			return 0
